@@ -53,7 +53,17 @@ def place_expr(F, B, pl, depth):
                 names.append("?")
         # tuple field of a tuple-valued expression
         if len(pl["p"]) == 1 and isinstance(pl["p"][0], dict) and pl["p"][0].get("adt") == "(tuple)":
+            if root[0] == "agg" and root[1] == "tuple" and pl["p"][0]["f"] < len(root[4]):
+                return root[4][pl["p"][0]["f"]]
             return ("tfield", root, pl["p"][0]["f"])
+        # `*(&place)` is the place
+        while names and names[0] == "*" and root[0] == "addr":
+            root = root[1]
+            names = names[1:]
+        if not names:
+            return root
+        if root[0] == "proj":
+            return ("proj", root[1], tuple(root[2]) + tuple(names))
         return ("proj", root, tuple(names))
     return local_expr(F, B, pl["l"], depth)
 
